@@ -781,7 +781,8 @@ class Harness:
         got = bytearray()
         extra = b""
         mode = spec["read"]
-        w = Waiter("read", "client%d" % i, "while-alive", self.loop.time())
+        w = Waiter("read", "client%d" % i, "after-termination" if proto.v_terminated else "while-alive",
+                   self.loop.time())
         self.waiters.append(w)
         try:
             if mode == 0:
